@@ -27,6 +27,8 @@ def _mentions_load_of(t, place):
 
 def check_items(col, crate, sfx):
     fk = util.fkey
+    free = [b for b in crate.bodies if not b.is_closure and b.kind == "Fn" and b.container is None and b.vis != "pub" and not util.self_recursive(b)]
+    A = util.analyser(free)
     lazy = []
     plain = []
     for a in crate.adts:
@@ -64,18 +66,30 @@ def check_items(col, crate, sfx):
             _check_update(col, sfx, nm, impl["update"], fields)
         # ---- push
         b = impl["push"]
-        I = util.analyse(b)
+        I = A(b)
         selfp = ("deref", ("param", 1, I.names.get(1)))
         for st in I.final_states:
             evs = st.event_list()
             mods = [(k, e) for k, e in enumerate(evs) if e.kind == "call" and e.extra.get("name") == "modify"]
+            md_place = ("field", selfp, MD)
+            md0 = ("load", ("m0",), md_place)
+            resets = [(k, e) for k, e in enumerate(evs) if e.kind == "store" and e.place == md_place]
+            first_reset = resets[0][0] if resets else len(evs)
             tgt = {}
+            late_place_use = False
             for k, e in mods:
-                if e.args[1] == ("ref", ("field", selfp, MD)) and e.args[0][0] == "ref" and e.args[0][1][0] == "deref" and e.args[0][1][1][0] == "param":
+                a1 = e.args[1]
+                # the modifier handed to the child is the ORIGINAL pending value: a reference to self.md while it
+                # is still untouched, or a moved-out copy of it (mem::take / mem::replace / clone before the reset)
+                by_place = a1 == ("ref", md_place) and k < first_reset
+                av = (e.extra.get("argvals") or [None, None])[1] if len(e.extra.get("argvals") or []) > 1 else None
+                by_value = (a1[0] == "ref" and a1[1][0] == "constval" and _strip_clone(a1[1][1]) == md0) or (av is not None and _strip_clone(av) == md0)
+                if a1 == ("ref", md_place) and k > first_reset:
+                    late_place_use = True
+                if (by_place or by_value) and e.args[0][0] == "ref" and e.args[0][1][0] == "deref" and e.args[0][1][1][0] == "param":
                     tgt[e.args[0][1][1][1]] = k
-            resets = [(k, e) for k, e in enumerate(evs) if e.kind == "store" and e.place == ("field", selfp, MD)]
-            ok_children = 2 in tgt and 3 in tgt
-            ok_reset = bool(resets) and _is_default(resets[-1][1].val) and ok_children and resets[-1][0] > max(tgt.values())
+            ok_children = 2 in tgt and 3 in tgt and not late_place_use
+            ok_reset = bool(resets) and _is_default(resets[-1][1].val) and ok_children
             key = "%s|both-children" % fk(b)
             if ok_children:
                 col.ok("R7" + sfx, b.loc(), key, "left.modify(&self.md); right.modify(&self.md)")
@@ -88,7 +102,7 @@ def check_items(col, crate, sfx):
                 col.violation("R7" + sfx, key, b.loc(), "%s::push does not reset the pending modifier to default() after pushing it: it is applied again on the next push" % nm)
         # ---- modify
         b = impl["modify"]
-        I = util.analyse(b)
+        I = A(b)
         selfp = ("deref", ("param", 1, I.names.get(1)))
         modp = ("deref", ("param", 2, I.names.get(2)))
         for st in I.final_states:
@@ -119,7 +133,7 @@ def check_items(col, crate, sfx):
                 col.violation("R7" + sfx, key, b.loc(), "%s::modify does not accumulate the modifier into the pending field md: children never receive it" % nm)
         # ---- merge: md of the result is default
         b = impl["merge"]
-        I = util.analyse(b)
+        I = A(b)
         lp, rp = ("deref", ("param", 1, I.names.get(1))), ("deref", ("param", 2, I.names.get(2)))
         for n, st in enumerate(I.final_states):
             ret = util.ret_term(st)
@@ -142,7 +156,7 @@ def check_items(col, crate, sfx):
             nb = crate.body("%s::<T>::new" % nm)
             if nb is None:
                 raise Anchor("%s::new not found" % nm)
-            I = util.analyse(nb)
+            I = A(nb)
             for st in I.final_states:
                 ret = util.ret_term(st)
                 ok = ret[0] == "agg" and ret[2][LEN][0] == "assoc" and ret[2][LEN][2] == "ONE" and _is_default(ret[2][MD]) and ret[2][V] == ("param", 1, I.names.get(1))
@@ -159,7 +173,7 @@ def check_items(col, crate, sfx):
     gen = ["U", "V"]
     for m in sorted(k for k in impl if k != "__impl__"):
         b = impl[m]
-        I = util.analyse(b)
+        I = A(b)
         for st in I.final_states:
             evs = [e for e in st.event_list() if e.kind == "call" and e.extra.get("name") == m and (e.extra.get("trait") or "").endswith("SegtreeItem")]
             ok = len(evs) == 2
@@ -198,7 +212,7 @@ def check_items(col, crate, sfx):
     fi = _impl_bodies(crate, "Combinator", "From")
     if "from" in fi:
         b = fi["from"]
-        I = util.analyse(b)
+        I = A(b)
         for st in I.final_states:
             evs = [e for e in st.event_list() if e.kind == "call" and e.extra.get("name") == "from"]
             ret = util.ret_term(st)
@@ -252,6 +266,15 @@ def _check_update(col, sfx, nm, b, fields):
             col.violation("R7" + sfx, key, b.loc(), "%s overrides SegtreeItem::update but does not leave self equal to merge(left, right): %s (the tree relies on update to overwrite the node, pending modifier included)" % (nm, "; ".join(bad)))
         else:
             col.ok("R7" + sfx, b.loc(), key + "|%d" % n, "update rewrites every field from both children and resets md")
+
+
+def _strip_clone(t):
+    while isinstance(t, tuple) and t and t[0] == "call" and str(t[1]).endswith("Clone::clone") and t[2] and isinstance(t[2][0], tuple) and t[2][0][0] == "ref":
+        inner = t[2][0][1]
+        t = inner[1] if inner[0] == "constval" else ("load", ("m0",), inner) if inner[0] in ("field",) else t
+        if inner[0] not in ("constval", "field"):
+            break
+    return t
 
 
 def _is_default(t):
